@@ -406,6 +406,10 @@ def path_roundtrips(run, rng, base, n):
         fmt = "json" if i % 2 == 0 else "keyval"
         ext = {"json": ".json", "keyval": ".yo"}[fmt] if (i // 2) % 2 == 0 else ""
         cfg = gen_config(rng, fmt)
+        if i % 5 == 4:
+            # a configuration well above a kilobyte (long push name / routing blob): the format of a file without a known extension is
+            # recognised from ALL of it
+            cfg.pushname = ((cfg.pushname or u"n").strip() + u" " + u"long name \xe9 " * 150).strip() + u"."
         want = cfg_key(cfg)
         d = tempfile.mkdtemp(prefix="dest_", dir=base)
         dest = os.path.join(d, "myconfig" + ext)
